@@ -140,7 +140,7 @@ LEGAL_PERTURBATIONS = {
 }
 
 EXTRA_OPTIONS = {
-    "obj": ["lossy", "seed", "face_style", "relative_indices", "polylines"],
+    "obj": ["lossy", "seed", "face_style", "relative_indices", "polylines", "interleave"],
     "mesh": ["lossy", "seed", "ref", "count_same_line", "version"],
     "geogram_ascii": ["lossy", "seed", "adjacency"],
     "off": ["lossy", "seed", "counts_on_header_line", "nedges"],
@@ -360,7 +360,7 @@ def project(fmt, mesh):
     else:
         for k in voc["faces"]:  # grouped by arity (only matters for medit)
             out["faces"] += [f for f in F if len(f) == k]
-    if fmt == "geogram_ascii":
+    if fmt in ("geogram_ascii", "tet"):  # one list of records in file order (medit groups by kind)
         out["cells"] = [c for c in C if len(c) in voc["cells"]]
     else:
         for k in voc["cells"]:
@@ -388,6 +388,7 @@ def _write_obj(mesh, opts):
     style = opts.pop("face_style", "v")  # v | v/vt | v//vn | v/vt/vn
     relative = opts.pop("relative_indices", False)
     polylines = opts.pop("polylines", False)
+    interleave = opts.pop("interleave", False)  # vertices are written just before the first face that needs them (streaming writers do)
     T = _Text("obj", opts)
     _no_more(opts, "obj")
     if style not in ("v", "v/vt", "v//vn", "v/vt/vn"):
@@ -398,17 +399,35 @@ def _write_obj(mesh, opts):
     if any(A.get(s) for s in A):
         _refuse(lossy, "obj", "attributes")
     n = len(V)
+    cur = [0]  # vertices written so far: a relative index counts backwards from there
 
     def ref(i):
-        return str(i - n) if relative else str(i + 1)
+        return str(i - cur[0]) if relative else str(i + 1)
 
-    for p in V:
-        T.add("v " + " ".join(T.ff(c) for c in p), gap=True)
+    def vertices_upto(k):
+        while cur[0] < k:
+            T.add("v " + " ".join(T.ff(c) for c in V[cur[0]]), gap=True)
+            cur[0] += 1
+
+    if not interleave:
+        vertices_upto(n)
     if "vt" in style:
         T.add("vt 0.0 0.0", gap=True)
         T.add("vt 1.0 0.0", gap=True)
     if "vn" in style:
         T.add("vn 0.0 0.0 1.0", gap=True)
+    if interleave:
+        for f in F:
+            vertices_upto(max(f) + 1)
+            toks = []
+            for k, i in enumerate(f):
+                vt = str(-1 - (k % 2)) if relative else str(1 + (k % 2))
+                vn = "-1" if relative else "1"
+                toks.append({"v": ref(i), "v/vt": ref(i) + "/" + vt, "v//vn": ref(i) + "//" + vn,
+                             "v/vt/vn": ref(i) + "/" + vt + "/" + vn}[style])
+            T.add("f " + " ".join(toks), gap=True)
+        vertices_upto(n)
+        F = []
     if polylines:
         # consecutive edges (a,b)(b,c) are chained into one `l a b c` element; same edges, same order
         chain = []
